@@ -15,7 +15,7 @@ from ..common import Report, MachineryError, load_known_findings, seed
 # a record that is lost or invented (C08_Count) also means that the stream does not encode the instruction list (C10)
 OWN = {"C08": ("C08_",), "C09": ("C09_", "C08_ParserFailed"), "C10": ("C10_", "C08_Count")}
 SIZES = {  # tier -> (random bytes, template instructions, chunk size)
-    "quick": dict(blob=120000, templates=12000, chunk=40, i386=0),
+    "quick": dict(blob=120000, templates=12000, chunk=40, i386=24000),
     "thorough": dict(blob=1200000, templates=150000, chunk=40, i386=250000),
 }
 
